@@ -19,7 +19,43 @@ assert os.path.realpath(biobalm.__file__).startswith(os.path.realpath(REPO)), (b
 from .refmodel import key  # noqa: E402
 
 
+def bn_api(net, names=None):
+    """build the network through AEON's API, keeping the declaration order of the variables (text parsers sort by name)"""
+    import itertools
+    from biodivine_aeon import UpdateFunction
+    names = list(names or net.names)
+    bn = BooleanNetwork(names)
+    vs = bn.variables()
+    for i in range(net.n):
+        if i in net.inputs:
+            continue
+        for j in range(net.n):
+            if net.depends(i, j):
+                bn.add_regulation({"source": vs[j], "target": vs[i], "essential": True, "sign": None})
+    for i in range(net.n):
+        if i in net.inputs:
+            continue
+        t = net.tables[i]
+        if t == net.FULL or t == 0:
+            bn.set_update_function(vs[i], UpdateFunction.mk_const(bn, t != 0))
+            continue
+        sup = [j for j in range(net.n) if net.depends(i, j)]
+        terms = []
+        for vals in itertools.product([0, 1], repeat=len(sup)):
+            st = 0
+            for j, v in zip(sup, vals):
+                if v:
+                    st |= 1 << j
+            if net.f(i, st):
+                lits = [UpdateFunction.mk_var(bn, vs[j]) if v else UpdateFunction.mk_not(UpdateFunction.mk_var(bn, vs[j])) for j, v in zip(sup, vals)]
+                terms.append(UpdateFunction.mk_conjunction(bn, lits) if len(lits) > 1 else lits[0])
+        bn.set_update_function(vs[i], UpdateFunction.mk_disjunction(bn, terms) if len(terms) > 1 else terms[0])
+    return bn
+
+
 def bn_of(net):
+    if getattr(net, "api_order", False):
+        return bn_api(net)
     bn = BooleanNetwork.from_bnet(net.bnet())
     for i in sorted(net.inputs):  # free inputs: no update function, no regulators
         v = bn.find_variable(net.names[i])
